@@ -1,13 +1,13 @@
 """
 C02 — model, instance and body agree: every nodeset/ref names one existing node.
 
-Theorems: Pyxv/Proofs/C02.lean (`refs_resolve`, `siblings_unique`, `ambiguous_rejected`,
-`instance_is_tree`) about the structural pipeline `Rows.formOut`.
-Tie: the same pipeline is run by the driver (`form.model`) on every generated form and its
-observation (instance name tree with template marks, bind nodesets, body refs) must equal the
-implementation's; the oracle (closure of every nodeset/ref incl. setvalue/action refs, sibling
-uniqueness, one bind per node) is evaluated by the Lean function `resolves` on the
-implementation's own instance and refs (op `form.closed`).
+Theorems: Pyxv/Proofs/C02.lean (`refs_resolve`, `siblings_unique`, `ambiguous_rejected`, `instance_is_tree`;
+`refs_resolve_n` / `siblings_unique_n` / `refs_resolve_tl` for the numbered, table-list-aware pipeline
+`TableList.formOutT`) and Pyxv/Proofs/C02Setvalues.lean (`setvalue_refs_resolve`, `trigger_refs_resolve`).
+Tie: `TableList.formOutT` is run by the driver (`controls.model`) on every generated form and its observation
+(instance name tree with template marks, bind nodesets, body refs) must equal the implementation's; the
+oracle (closure of every nodeset/ref incl. setvalue/action refs, sibling uniqueness, one bind per node) is
+evaluated by the Lean function `resolves` on the implementation's own instance and refs (op `form.closed`).
 """
 
 from __future__ import annotations
@@ -60,7 +60,9 @@ def oracle(ctx, form, obs):
 
 def form_case(ctx, form):
     r = impl.run(form)
-    m = formcommon.model_call(ctx, form)
+    m = formcommon.model_call(ctx, form, op="controls.model")
+    if m["outcome"] == "unsupported":
+        ctx.count("unsupported: " + m.get("why", "?"))
     ctx.count(f"impl:{r['class']}/model:{m['outcome']}")
     nontrivial = False
     if r["ok"]:
